@@ -18,7 +18,7 @@ static cat_return_state policy(struct hcall *h)
         return CAT_RETURN_STATE_OK;
 }
 
-static char last_line[600]; static size_t last_len;
+static char last_line[700]; static size_t last_len;
 static char descr[400];
 void chk_describe(FILE *f)
 {
@@ -43,6 +43,7 @@ static void add_ro_var(struct cat_command *c)
 }
 static void finish_world(void)
 {
+        if (W.ngroups < MAXGRP && chance(25)) w_noise_group(30 + rn(100));      /* a quarter of the tables with background event traffic */
         size_t maxname = 0;
         for (size_t i = 0; i < W.ncmds; i++) if (strlen(W.cmd[i]->name) > maxname) maxname = strlen(W.cmd[i]->name);
         size_t cap = w_min_cap() + maxname + 48 + rn(40);
@@ -225,6 +226,31 @@ static void sweep_candidates(long item)
         if (K > 100) { line_for("+C1", 0, 0); line_for("+C10", 0, 1); line_for("+C2", 0, 2); line_for("+C25", 0, 3); }
 }
 
+/* (f) long names: 200 / 255 / 256 / 257 / 300 characters, typed in full, abbreviated at every interesting length, and one character too long */
+static void sweep_long_names(long item)
+{
+        static const int LEN[] = { 200, 255, 256, 257, 300 };
+        int L = LEN[item % 5]; int variant = (int)(item / 5);      /* 0: unique, 1: two names differing in the last character, 2: second one is a proper prefix of the first */
+        static char n1[320], n2[320], t[330];
+        for (int i = 0; i < L; i++) n1[i] = (char)("+ABCDEFGH0123"[i % 13]); n1[L] = 0; n1[0] = '+';
+        strcpy(n2, n1);
+        if (variant == 1) n2[L - 1] = n1[L - 1] == 'Z' ? 'Y' : 'Z'; else if (variant == 2) n2[L - 3] = 0; else strcpy(n2, "+OTHER");
+        w_begin();
+        struct cat_command *arr = w_group(3, false);
+        arr[0].name = xstr("+Q"); set_handlers(&arr[0], 15);
+        arr[1].name = xstr(n1); set_handlers(&arr[1], 15);
+        arr[2].name = xstr(n2); set_handlers(&arr[2], 15);
+        finish_world();
+        for (int s = 0; s < 4; s++) {
+                line_for(n1, s % 3, s); line_for(n2, (s + 1) % 3, s);
+                strcpy(t, n1); t[L - 1] = 0; line_for(t, 0, s);                       /* one short */
+                strcpy(t, n1); t[L - 4] = 0; line_for(t, 1, s);                       /* abbreviated before the two names part */
+                strcpy(t, n1); strcat(t, "A"); line_for(t, 0, s);                     /* one too long */
+                strcpy(t, n1); t[255 < L ? 255 : L / 2] = 0; line_for(t, 2, s); strcpy(t, n1); t[256 < L ? 256 : L / 3] = 0; line_for(t, 0, s);
+        }
+}
+#define N_LONG 15
+
 /* ---- random tables ---- */
 static void random_case(void)
 {
@@ -278,7 +304,7 @@ static void random_case(void)
 const char *PROP = "C02";
 struct case_budget chk_budget(const char *tier)
 {
-        struct case_budget b = { N_LANES + 360 + N_ALPHA + N_DUPS + N_CAND, 0 };
+        struct case_budget b = { N_LANES + 360 + N_ALPHA + N_DUPS + N_CAND + N_LONG, 0 };
         b.random = strcmp(tier, "thorough") == 0 ? 8000000 : 150000;
         return b;
 }
@@ -291,7 +317,8 @@ void chk_run_case(uint64_t seed, long c, bool is_sweep)
                 else if ((c -= N_LANES) < 360) sweep_orders(c);
                 else if ((c -= 360) < N_ALPHA) sweep_alphabet(c);
                 else if ((c -= N_ALPHA) < N_DUPS) sweep_dups(c);
-                else sweep_candidates(c - N_DUPS);
+                else if ((c -= N_DUPS) < N_CAND) sweep_candidates(c);
+                else sweep_long_names(c - N_CAND);
         } else random_case();
 }
 int main(int argc, char **argv) { MY_PROP = "C02"; PROG_NAME = "chk_C02"; return verif_main(argc, argv); }
